@@ -20,12 +20,8 @@ package main
 
 import (
 	"fmt"
-	"go/ast"
-	"go/token"
 	"os"
-	"path/filepath"
 	"runtime"
-	"sort"
 	"strconv"
 	"strings"
 	"sync"
@@ -38,283 +34,6 @@ import (
 	"github.com/krotik/ecal/scope"
 	"github.com/krotik/ecal/util"
 )
-
-// ---------------------------------------------------------------- extractor
-
-type c11Facts struct {
-	found      bool
-	writes     []string // captured variables assigned inside
-	reassigned []string // captured variables re-assigned by the enclosing function after the closure was created / loop variables
-	setup      []string // scope set-up calls in source order (c11ScopeSetup)
-}
-
-func c11Names(entries []string) []string {
-	set := map[string]bool{}
-	for _, e := range entries {
-		set[strings.Fields(e)[0]] = true
-	}
-	var out []string
-	for k := range set {
-		out = append(out, k)
-	}
-	sort.Strings(out)
-	return out
-}
-
-// c11Closure analyses the function literal assigned to `<x>.Action` in file.
-func c11Closure(p *srcPkg, f *ast.File) c11Facts {
-	var res c11Facts
-	imports := fileImports(f)
-	for _, d := range f.Decls {
-		fd, ok := d.(*ast.FuncDecl)
-		if !ok || fd.Body == nil {
-			continue
-		}
-		// path of enclosing statements for loop detection
-		var stack []ast.Node
-		ast.Inspect(fd.Body, func(n ast.Node) bool {
-			if n == nil {
-				stack = stack[:len(stack)-1]
-				return true
-			}
-			stack = append(stack, n)
-			as, ok := n.(*ast.AssignStmt)
-			if !ok || len(as.Lhs) != 1 || len(as.Rhs) != 1 {
-				return true
-			}
-			sel, ok := as.Lhs[0].(*ast.SelectorExpr)
-			lit, ok2 := as.Rhs[0].(*ast.FuncLit)
-			if !ok || !ok2 || sel.Sel.Name != "Action" {
-				return true
-			}
-			res.found = true
-			res.setup = c11ScopeSetup(lit)
-			res.writes = append(res.writes, c11Names(capturedWritesOf(lit, nil, p, imports))...)
-			// captured objects referenced inside the literal
-			captured := map[*ast.Object]bool{}
-			ast.Inspect(lit, func(x ast.Node) bool {
-				if id, ok := x.(*ast.Ident); ok && id.Obj != nil && id.Obj.Kind == ast.Var {
-					dp := objPos(id.Obj)
-					if dp != token.NoPos && (dp < lit.Pos() || dp >= lit.End()) && dp >= fd.Pos() && dp < fd.End() {
-						captured[id.Obj] = true
-					}
-				}
-				return true
-			})
-			re := map[string]bool{}
-			// (a) loop variables of loops around the literal
-			for _, anc := range stack {
-				switch l := anc.(type) {
-				case *ast.RangeStmt:
-					for _, e := range []ast.Expr{l.Key, l.Value} {
-						if id, ok := e.(*ast.Ident); ok && id.Obj != nil && captured[id.Obj] {
-							re[id.Name] = true
-						}
-					}
-				case *ast.ForStmt:
-					if init, ok := l.Init.(*ast.AssignStmt); ok {
-						for _, e := range init.Lhs {
-							if id, ok := e.(*ast.Ident); ok && id.Obj != nil && captured[id.Obj] {
-								re[id.Name] = true
-							}
-						}
-					}
-				}
-			}
-			// (b) plain re-assignment of a captured variable after the closure was created
-			forEachWrite(fd.Body, imports, func(t ast.Expr, kind string, pos token.Pos) {
-				if pos >= lit.Pos() && pos < lit.End() {
-					return
-				}
-				if id, ok := unparen(t).(*ast.Ident); ok && id.Obj != nil && captured[id.Obj] && pos > lit.Pos() {
-					re[id.Name] = true
-				}
-			})
-			// (c) inside a loop every assignment of a captured variable in the loop body counts
-			for _, anc := range stack {
-				if _, isFor := anc.(*ast.ForStmt); !isFor {
-					if _, isRange := anc.(*ast.RangeStmt); !isRange {
-						continue
-					}
-				}
-				forEachWrite(anc, imports, func(t ast.Expr, kind string, pos token.Pos) {
-					if pos >= lit.Pos() && pos < lit.End() {
-						return
-					}
-					if id, ok := unparen(t).(*ast.Ident); ok && id.Obj != nil && captured[id.Obj] {
-						re[id.Name] = true
-					}
-				})
-			}
-			for k := range re {
-				res.reassigned = append(res.reassigned, k)
-			}
-			return true
-		})
-	}
-	sort.Strings(res.writes)
-	sort.Strings(res.reassigned)
-	return res
-}
-
-// c11ScopeSetup returns, in source order, the calls inside fn that set up the fresh scope of
-// an invocation / a call frame: its constructor, the stores into it, the link to its parent
-// and its first use as evaluation scope. Normalised: only these calls, no names of locals.
-func c11ScopeSetup(fn ast.Node) []string {
-	type ev struct {
-		pos  token.Pos
-		what string
-	}
-	var evs []ev
-	var scopeObj *ast.Object
-	ctorOf := func(e ast.Expr) string {
-		c, ok := e.(*ast.CallExpr)
-		if !ok {
-			return ""
-		}
-		sel, ok := c.Fun.(*ast.SelectorExpr)
-		if !ok {
-			return ""
-		}
-		switch sel.Sel.Name {
-		case "NewScope", "NewScopeWithParent", "NewChild":
-			return sel.Sel.Name
-		}
-		return ""
-	}
-	// the scope variable: the first variable initialised by a scope constructor
-	ast.Inspect(fn, func(n ast.Node) bool {
-		if as, ok := n.(*ast.AssignStmt); ok && scopeObj == nil && len(as.Lhs) == 1 && len(as.Rhs) == 1 {
-			if id, ok := as.Lhs[0].(*ast.Ident); ok && id.Obj != nil {
-				if c := ctorOf(as.Rhs[0]); c != "" {
-					scopeObj = id.Obj
-					evs = append(evs, ev{as.Pos(), c})
-				}
-			}
-		}
-		return true
-	})
-	if scopeObj == nil {
-		return nil
-	}
-	isScope := func(e ast.Expr) bool {
-		id, ok := unparen(e).(*ast.Ident)
-		return ok && id.Obj == scopeObj
-	}
-	ast.Inspect(fn, func(n ast.Node) bool {
-		c, ok := n.(*ast.CallExpr)
-		if !ok {
-			return true
-		}
-		sel, ok := c.Fun.(*ast.SelectorExpr)
-		if !ok {
-			return true
-		}
-		switch {
-		case (sel.Sel.Name == "SetValue" || sel.Sel.Name == "SetLocalValue") && isScope(sel.X) && len(c.Args) >= 1:
-			name := "*"
-			if lit, ok := c.Args[0].(*ast.BasicLit); ok && lit.Kind == token.STRING {
-				name = strings.Trim(lit.Value, "\"`")
-			}
-			evs = append(evs, ev{c.Pos(), sel.Sel.Name + ":" + name})
-		case sel.Sel.Name == "SetParentOfScope" && len(c.Args) >= 1 && isScope(c.Args[0]):
-			evs = append(evs, ev{c.Pos(), "SetParentOfScope"})
-		case sel.Sel.Name == "Eval" && len(c.Args) >= 1 && isScope(c.Args[0]):
-			evs = append(evs, ev{c.Pos(), "Eval"})
-		}
-		return true
-	})
-	sort.SliceStable(evs, func(i, j int) bool { return evs[i].pos < evs[j].pos })
-	var out []string
-	for _, e := range evs {
-		if len(out) == 0 || out[len(out)-1] != e.what {
-			out = append(out, e.what)
-		}
-	}
-	return out
-}
-
-func c11Method(p *srcPkg, f *ast.File, recvType, name string) c11Facts {
-	var res c11Facts
-	imports := fileImports(f)
-	for _, d := range f.Decls {
-		fd, ok := d.(*ast.FuncDecl)
-		if !ok || fd.Body == nil || fd.Name.Name != name || funcName(p.name, fd) != p.name+"."+recvType+"."+name {
-			continue
-		}
-		res.found = true
-		var recv *ast.Ident
-		if len(fd.Recv.List[0].Names) == 1 {
-			recv = fd.Recv.List[0].Names[0]
-		}
-		res.writes = c11Names(capturedWritesOf(fd, recv, p, imports))
-		res.setup = c11ScopeSetup(fd)
-	}
-	return res
-}
-
-func c11Extract(args []string) int {
-	if len(args) != 1 {
-		fmt.Fprintln(os.Stderr, "usage: harness C11 -tool extract <out.lean>")
-		return 2
-	}
-	p, err := loadSrcPkg(filepath.Join(repoDir(), "interpreter"))
-	if err != nil {
-		fmt.Fprintln(os.Stderr, "extract:", err)
-		return 2
-	}
-	var sink, fn c11Facts
-	for _, f := range p.files {
-		switch filepath.Base(p.fset.Position(f.Pos()).Filename) {
-		case "rt_sink.go":
-			sink = c11Closure(p, f)
-		case "rt_func.go":
-			fn = c11Method(p, f, "function", "Run")
-		}
-	}
-	list := func(xs []string) string {
-		var q []string
-		for _, x := range xs {
-			q = append(q, sfLeanStr(x))
-		}
-		return "[" + strings.Join(q, ", ") + "]"
-	}
-	pairs := func(xs []string) string {
-		var q []string
-		for _, x := range xs {
-			op, arg := x, ""
-			if i := strings.IndexByte(x, ':'); i >= 0 {
-				op, arg = x[:i], x[i+1:]
-			}
-			q = append(q, "("+leanStr(op)+", "+leanStr(arg)+")")
-		}
-		return "[" + strings.Join(q, ", ") + "]"
-	}
-	var b strings.Builder
-	b.WriteString("/-! GENERATED by `harness C11 -tool extract` from the Go source under test — do not edit.\n")
-	b.WriteString("`capturedWrites`: variables assigned inside the function literal assigned to `rule.Action`\n")
-	b.WriteString("(interpreter/rt_sink.go) but declared outside it (`x(.)` = a component of outer variable x).\n")
-	b.WriteString("`capturedReassigned`: variables the literal refers to which the enclosing function assigns\n")
-	b.WriteString("after creating the closure, or inside / as variable of a loop around it.\n")
-	b.WriteString("`funcRunWrites`: the same for the method `function.Run` (interpreter/rt_func.go): receiver\n")
-	b.WriteString("components and package-level variables it assigns. -/\n")
-	b.WriteString("namespace Ecal.Gen.C11\n\n")
-	b.WriteString("def capturedWrites : List String := " + list(sink.writes) + "\n\n")
-	b.WriteString("def capturedReassigned : List String := " + list(sink.reassigned) + "\n\n")
-	b.WriteString("def funcRunWrites : List String := " + list(fn.writes) + "\n\n")
-	b.WriteString("/-- set-up of the fresh per-invocation scope inside the action closure, in source order: constructor,\n    stores (`(SetValue, <name>)`, `*` = computed name), link to the declaring scope, first use for evaluation -/\n")
-	b.WriteString("def sinkScopeSetup : List (String × String) := " + pairs(sink.setup) + "\n\n")
-	b.WriteString("/-- the same for the call frame scope of `function.Run` -/\n")
-	b.WriteString("def funcRunScopeSetup : List (String × String) := " + pairs(fn.setup) + "\n\n")
-	b.WriteString(fmt.Sprintf("/-- the extractor found the code it is about -/\ndef found : List (String × Bool) := [(\"rule.Action literal\", %v), (\"function.Run\", %v)]\n\n", sink.found, fn.found))
-	b.WriteString("end Ecal.Gen.C11\n")
-	if err := os.WriteFile(args[0], []byte(b.String()), 0644); err != nil {
-		fmt.Fprintln(os.Stderr, "extract:", err)
-		return 2
-	}
-	return 0
-}
-
 
 // ---------------------------------------------------------------- stress
 
